@@ -117,14 +117,13 @@ theorem c10_concat_sound (σ : Env) : ∀ (ts : List STn) (cs : List CT) (r : ST
 
 /-! ## `Expand` with a valued target shape = `BinaryOp` against that shape -/
 
-/-- **C10.T1-expand**: with all executed sizes ≥ 1, the inferred dimensions evaluate to the NumPy
+/-- **C10.T1-expand**: the inferred dimensions evaluate to the NumPy
 broadcast of the executed data shape with the instantiated target (which is what `Expand` produces). -/
 theorem c10_expand_sound (σ : Env) (data : STn) (cd : CT) (ad sizes out : List Sym) (vsz zs : List Int)
     (hd : Agrees σ data cd) (had : data.dims = some ad) (hs : evalList σ sizes = some vsz)
-    (hpd : ∀ x ∈ cd.dims, 1 ≤ x) (hps : ∀ y ∈ vsz, 1 ≤ y)
     (hi : expandInfer data sizes = .ok (.shape out)) (he : cbroadcast cd.dims vsz = some zs) :
     Agrees σ (.shape out) (.shaped zs) :=
-  c10_binaryShape_sound σ data (.shape sizes) cd (.shaped vsz) ad sizes out zs hd hs had rfl hpd hps hi he
+  c10_binaryShape_sound σ data (.shape sizes) cd (.shaped vsz) ad sizes out zs hd hs had rfl hi he
 
 /-- Satisfiability of the hypotheses of `c10_gather_vector_sound`, `c10_concat_sound`, `c10_bdim_sound`
 and `c10_binaryShape_sound` on concrete instances. -/
